@@ -393,7 +393,11 @@ func rulesC02(p *Prog, r *Report) {
 
 	// M6: cells of the plus table, from the non-inlined formula
 	{
-		qz := &quantizer{p: p, elemVar: map[ssa.Value]string{}}
+		// the tests the cells are expected to consult stay opaque; any helper in between is seen through
+		qz := &quantizer{p: p, elemVar: map[ssa.Value]string{}, stop: map[string]bool{
+			"exceptionsAreCompatible": true, "hasPlus": true, "identifierInRange": true, "isLicense": true,
+			"licensesExactlyEqual": true, "rangesAreCompatible": true, "rangesEqual": true, "compareEQ": true,
+			"compareGT": true, "compareLT": true, "hasException": true, "isLicenseRef": true, "isExpression": true}}
 		f := qz.funcFormulaWith(lac, 0, nil)
 		s := ""
 		if f != nil {
